@@ -725,6 +725,24 @@ func corpusTxnBatch() []*kase {
 	}
 }
 
+// fixed batch: transactions that change the membership of the endpoint set but not its size (one core's key
+// deleted and another's created in the same revision), and a full rotation back to an earlier set
+func corpusSwapBatch() []*kase {
+	a, b, c := txAddrs[0], txAddrs[1], txAddrs[2]
+	tl := []step{{Txn: []txop{{Put: a}, {Put: b}}}, {Txn: []txop{{Del: a}, {Put: c}}}, {Txn: []txop{{Del: b}, {Put: a}}}, {Txn: []txop{{Put: b}, {Del: c}}}}
+	mk := func(id string, ops ...step) *kase {
+		st := append([]step{}, tl...)
+		for i := range ops {
+			st[i].Op, st[i].Sid, st[i].Mode = ops[i].Op, ops[i].Sid, ops[i].Mode
+		}
+		return &kase{ID: id, Steps: st}
+	}
+	return []*kase{
+		mk("c-txn-swap", step{Op: "sub", Sid: 1, Mode: "reader"}, step{}, step{Op: "sub", Sid: 2, Mode: "reader"}, step{}),
+		mk("c-txn-swap-late-sub", step{}, step{Op: "sub", Sid: 1, Mode: "reader"}, step{}, step{Op: "unsub", Sid: 1}),
+	}
+}
+
 // fixed batch: registrations are committed at the two interleaving points of every stream's start
 // (right after its snapshot Get returned, right after its Watch call returned); every subscriber must
 // have all of them within one push interval, and keep them.
@@ -825,6 +843,7 @@ func TestGen(t *testing.T) {
 	n := hx.EnvInt("VERIF_CASES", 30)
 	emit(corpusBatch())
 	emit(corpusTxnBatch())
+	emit(corpusSwapBatch())
 	emit(corpusEmptyBatch())
 	emit(corpusStartRaceBatch())
 	emit(corpusRepushBatch())
